@@ -64,6 +64,8 @@ RULE_PATTERNS = [(re.compile(p), r) for p, r in [
     (r'^incorrect number of dimensions passed to deref', 'derefDims'),
     (r'^incorrect types of arguments passed to deref', 'derefIndex'),
     (r'^cannot compose type', 'pipeNotFunc'),
+    (r'^no function or expression in the main unit', 'emptyMainUnit'),
+    (r'^a function declared here needs a name', 'funcNoName'),
     (r'^functions are different', 'branchFuncs'),
     (r'^incorrect return type in function', 'returnType'),
     (r'^expression is .* not enum name', 'matchNotEnum'),
